@@ -29,6 +29,7 @@ ASSUMPTIONS = [
 ]
 EXHAUSTIVE = {'quick': False, 'thorough': False}
 PYOPT_KINDS = (None,)
+CLOCALE_KINDS = (None,)
 KNOWN_KEYS = {'glue-minus-minus', 'glue-number-dotdot', 'glue-dotdot-dot', 'glue-bracket-longstring'}
 CONFIGS = ('default', 'keep_all', 'keep_file')
 STAT_FEATS = ['StatAssignment', 'StatAssignment:compound', 'StatFunctionCall', 'StatDo', 'StatWhile', 'StatRepeat', 'StatIf', 'StatForStep',
